@@ -1,5 +1,6 @@
 import QR.Model.QRObject
 import QR.Proofs.Except
+import QR.Proofs.History
 /-
 C11 - a compile depends only on current data and settings, never on history.  (Invariant proof under construction.)
 -/
@@ -41,5 +42,160 @@ theorem C11_blank_cache (g : Global) (hg : Global.Inv g) (v : Nat) :
           simp only [this] at hw
           exact hg w c hw
       · intro e h; cases h
+
+/-! ### the cached compile against the cache-free compile (proofs: QR/Proofs/History.lean) -/
+
+theorem Global.inv_iff (g : Global) : Global.Inv g ↔ GInv g := Iff.rfl
+
+/-- **B1** `makeImplS` (blank cache + data cache) is the cache-free `makeImpl` on the cached / freshly encoded data -/
+theorem C11_makeImpl (test : Bool) (mask : Nat) (g : Global) (hg : Global.Inv g) (s : QRState) :
+    (∀ g' s', makeImplS test mask (g, s) = ((g', s'), .ok ()) →
+      Global.Inv g' ∧
+      ∃ data, (s.dataCache = some data ∨
+                (s.dataCache = none ∧ createData s.version s.level s.dataList = .ok data)) ∧
+        s'.dataCache = some data ∧ makeImpl s.version s.level test mask data = .ok s'.modules ∧
+        s'.version = s.version ∧ s'.level = s.level ∧ s'.mask = s.mask ∧ s'.border = s.border ∧
+        s'.boxSize = s.boxSize ∧ s'.dataList = s.dataList) ∧
+    (∀ g' s' e, makeImplS test mask (g, s) = ((g', s'), .error e) →
+      Global.Inv g' ∧
+      (blank s.version = .error e ∨
+       (∃ b, blank s.version = .ok b ∧
+          ((s.dataCache = none ∧ createData s.version s.level s.dataList = .error e) ∨
+           (∃ data, (s.dataCache = some data ∨
+                      (s.dataCache = none ∧ createData s.version s.level s.dataList = .ok data)) ∧
+              7 < mask ∧ e = .typeError ∧ makeImpl s.version s.level test mask data = .error e)))) ∧
+      s'.version = s.version ∧ s'.level = s.level ∧ s'.mask = s.mask ∧ s'.border = s.border ∧
+      s'.boxSize = s.boxSize ∧ s'.dataList = s.dataList) := by
+  refine ⟨?_, ?_⟩
+  · intro g' s' h
+    obtain ⟨a1, a2, _, _, data, a5, a6, a7⟩ := makeImplS_ok hg h
+    exact ⟨a1, data, a5, a6, a7, a2.version, a2.level, a2.mask, a2.border, a2.boxSize, a2.dataList⟩
+  · intro g' s' e h
+    obtain ⟨a1, a2, _, a4⟩ := makeImplS_error hg h
+    refine ⟨a1, ?_, a2.version, a2.level, a2.mask, a2.border, a2.boxSize, a2.dataList⟩
+    rcases a4 with ⟨hb, _⟩ | ⟨b, hb, ⟨h1, h2, _⟩ | ⟨data, h1, _, h3, h4⟩⟩
+    · exact Or.inl hb
+    · exact Or.inr ⟨b, hb, Or.inl ⟨h1, h2⟩⟩
+    · refine Or.inr ⟨b, hb, Or.inr ⟨data, h1, h3, h4, ?_⟩⟩
+      subst h4
+      simp only [makeImpl_eq, hb, R.bind_ok, h3, if_true]
+
+/-- **B2** `bestFitS` returns what `bestFit` returns; it only ever assigns checked versions to `version` -/
+theorem C11_bestFit (fuel start : Nat) (s : QRState) :
+    (bestFitS fuel start s).2 = bestFit fuel start s.level s.dataList ∧
+    (∃ v', (bestFitS fuel start s).1 = { s with version := v' } ∧ (v' = s.version ∨ (1 ≤ v' ∧ v' ≤ 40))) ∧
+    (∀ v, (bestFitS fuel start s).2 = .ok v → (bestFitS fuel start s).1 = { s with version := v }) := by
+  refine ⟨bestFitS_result fuel start s, bestFitS_state fuel start s, fun v h => (bestFitS_ok h).1⟩
+
+/-- **B3** with the data known (cached, or computable), `bestMaskS` is `bestMaskPattern` -/
+theorem C11_bestMask (g : Global) (hg : Global.Inv g) (s : QRState) (data : List Nat)
+    (hd : s.dataCache = some data ∨ (s.dataCache = none ∧ createData s.version s.level s.dataList = .ok data)) :
+    (∀ g' s' m, bestMaskS (g, s) = ((g', s'), .ok m) →
+        Global.Inv g' ∧ s'.dataCache = some data ∧ bestMaskPattern s.version s.level data = .ok m ∧
+        s'.version = s.version ∧ s'.level = s.level ∧ s'.mask = s.mask ∧ s'.border = s.border ∧
+        s'.boxSize = s.boxSize ∧ s'.dataList = s.dataList) ∧
+    (∀ g' s' e, bestMaskS (g, s) = ((g', s'), .error e) →
+        Global.Inv g' ∧ bestMaskPattern s.version s.level data = .error e ∧
+        s'.version = s.version ∧ s'.level = s.level ∧ s'.mask = s.mask ∧ s'.border = s.border ∧
+        s'.boxSize = s.boxSize ∧ s'.dataList = s.dataList) := by
+  obtain ⟨h1, h2⟩ := bestMaskS_spec g s data hg hd
+  refine ⟨?_, ?_⟩
+  · intro g' s' m h
+    obtain ⟨a1, a2, a3, a4⟩ := h1 g' s' m h
+    exact ⟨a1, a3, a4, a2.version, a2.level, a2.mask, a2.border, a2.boxSize, a2.dataList⟩
+  · intro g' s' e h
+    obtain ⟨a1, a2, a3⟩ := h2 g' s' e h
+    exact ⟨a1, a3, a2.version, a2.level, a2.mask, a2.border, a2.boxSize, a2.dataList⟩
+
+/-- **B4 (main)**: whatever the two caches hold (subject to the invariant of the blank cache), `make(fit)` produces
+    exactly what the cache-free compile of a fresh object with the same settings and data produces, or fails with the
+    same error.  `version ≤ 40` is needed for the error clause only (see `C11_make_any`). -/
+theorem C11_make (fit : Bool) (g : Global) (hg : Global.Inv g) (s : QRState) (hv : s.version ≤ 40) :
+    match makeS fit (g, s) with
+    | ((g', s'), .ok ()) => Global.Inv g' ∧
+        ∃ m, compile { version := s.version, level := s.level, mask := s.mask, fit := fit } s.dataList =
+          .ok (s'.version, m, s'.modules)
+    | ((g', _), .error e) => Global.Inv g' ∧
+        compile { version := s.version, level := s.level, mask := s.mask, fit := fit } s.dataList = .error e :=
+  makeS_agrees fit g s hg hv
+
+/-- B4 for an arbitrary state: success is always that of the cache-free compile; a failure is a failure of the
+    cache-free compile, of the same class as soon as `version ≤ 40` -/
+theorem C11_make_any (fit : Bool) (g : Global) (hg : Global.Inv g) (s : QRState) :
+    match makeS fit (g, s) with
+    | ((g', s'), .ok ()) => Global.Inv g' ∧
+        ∃ m, compile { version := s.version, level := s.level, mask := s.mask, fit := fit } s.dataList =
+          .ok (s'.version, m, s'.modules)
+    | ((g', _), .error e) => Global.Inv g' ∧
+        (∃ e', compile { version := s.version, level := s.level, mask := s.mask, fit := fit } s.dataList = .error e') ∧
+        (s.version ≤ 40 →
+          compile { version := s.version, level := s.level, mask := s.mask, fit := fit } s.dataList = .error e) :=
+  makeS_agrees_weak fit g s hg
+
+/-- the hypothesis of the error clause cannot be dropped: `blank` exists exactly for `version ≤ 40`, and `makeImpl`
+    consults it before `create_data` while `compile` encodes first -/
+theorem C11_blank_total (v : Nat) : (∃ b, blank v = .ok b) ↔ v ≤ 40 :=
+  ⟨fun ⟨_, h⟩ => le_of_blank_ok h, blank_ok_of_le⟩
+
+/-- **B5**: every operation preserves the invariant of the process-wide cache, and the range of the settings -/
+theorem C11_step_inv (g : Global) (hg : Global.Inv g) (s : QRState) (op : Op) :
+    Global.Inv (step (g, s) op).1.1 ∧ (s.version ≤ 40 → (step (g, s) op).1.2.version ≤ 40) ∧
+      ((∀ m, s.mask = some m → m ≤ 7) → ∀ m, (step (g, s) op).1.2.mask = some m → m ≤ 7) := by
+  obtain ⟨a1, a2, a3, _⟩ := step_inv g s op hg
+  exact ⟨a1, a2, a3⟩
+
+/-- **C11**: after ANY sequence of operations (adds, clears, failed and successful compiles, setter calls, caller
+    writes into the matrix, compiles by other objects of the process), from any state with `version ≤ 40` (in
+    particular any constructed object), the cache invariant holds and a compile yields exactly what a fresh object
+    with the current settings and data yields, or fails with the same error -/
+theorem C11_history_free (ops : List Op) (g0 : Global) (hg : Global.Inv g0) (s0 : QRState) (hv : s0.version ≤ 40) :
+    match run (g0, s0) ops with
+    | ((g, s), _) => Global.Inv g ∧ ∀ fit : Bool,
+        match makeS fit (g, s) with
+        | ((g', s'), .ok ()) => Global.Inv g' ∧
+            ∃ m, compile { version := s.version, level := s.level, mask := s.mask, fit := fit } s.dataList =
+              .ok (s'.version, m, s'.modules)
+        | ((g', _), .error e) => Global.Inv g' ∧
+            compile { version := s.version, level := s.level, mask := s.mask, fit := fit } s.dataList = .error e := by
+  cases h : run (g0, s0) ops with
+  | mk st outs =>
+    obtain ⟨g, s⟩ := st
+    have key := fun fit => history_free ops g0 hg s0 hv fit
+    rw [h] at key
+    exact ⟨(key true).1, fun fit => (key fit).2⟩
+
+/-- ... in particular from every constructed object and the empty process cache -/
+theorem C11_history_free_constructed (version : Option Int) (level : Nat) (box border : Int) (mask : Option Int)
+    (s0 : QRState) (hc : construct version level box border mask = .ok s0) (ops : List Op) :
+    match run ({ blanks := [] }, s0) ops with
+    | ((g, s), _) => Global.Inv g ∧ ∀ fit : Bool,
+        match makeS fit (g, s) with
+        | ((g', s'), .ok ()) => Global.Inv g' ∧
+            ∃ m, compile { version := s.version, level := s.level, mask := s.mask, fit := fit } s.dataList =
+              .ok (s'.version, m, s'.modules)
+        | ((g', _), .error e) => Global.Inv g' ∧
+            compile { version := s.version, level := s.level, mask := s.mask, fit := fit } s.dataList = .error e :=
+  C11_history_free ops _ Global.inv_empty s0 (construct_inv hc).1.1
+
+/-- from an arbitrary state (even `version > 40`, which no setter admits) only the error class may differ -/
+theorem C11_history_free_any (ops : List Op) (g0 : Global) (hg : Global.Inv g0) (s0 : QRState) :
+    match run (g0, s0) ops with
+    | ((g, s), _) => Global.Inv g ∧ ∀ fit : Bool,
+        match makeS fit (g, s) with
+        | ((g', s'), .ok ()) => Global.Inv g' ∧
+            ∃ m, compile { version := s.version, level := s.level, mask := s.mask, fit := fit } s.dataList =
+              .ok (s'.version, m, s'.modules)
+        | ((g', _), .error e) => Global.Inv g' ∧
+            (∃ e', compile { version := s.version, level := s.level, mask := s.mask, fit := fit } s.dataList =
+              .error e') ∧
+            (s.version ≤ 40 →
+              compile { version := s.version, level := s.level, mask := s.mask, fit := fit } s.dataList =
+                .error e) := by
+  cases h : run (g0, s0) ops with
+  | mk st outs =>
+    obtain ⟨g, s⟩ := st
+    have key := fun fit => history_free_weak ops g0 hg s0 fit
+    rw [h] at key
+    exact ⟨(key true).1, fun fit => (key fit).2⟩
 
 end QR.Props
